@@ -77,6 +77,8 @@ func checkC10(c *Ctx) {
 	r.Rule("R10e", "client-side mapping of error responses (Go and TS)", 8)
 	r.Rule("R10j", "the 400 body for an undecodable request is deliverable: decoder error text (which quotes raw request bytes) reaches FieldViolation.Description only through a UTF-8 sanitiser or %q — an invalid-UTF-8 proto3 string makes the marshalling of the ValidationError fail and the client gets a bare text 400", 1)
 	decodeErrorTextSanitised(c, "R10j")
+	r.Rule("R10k", "every registration starts from a fresh default configuration: getDefaultConfiguration returns a new value, not the address of a package-level variable that an earlier registration's options (error hook, mux) were written into", 1)
+	freshDefaultConfiguration(c, "R10k")
 	r.Rule("R10i", "TS server: validation failures are answered with the documented 400 {violations} whether or not an onError hook is configured (the ValidationError arm precedes the hook)", 1)
 	r.Rule("R10f", "error interface for *Error messages and the built-in error messages", 4)
 	r.Rule("R10g", "every error response of the request path goes through the hook-aware writer (the pre-hook helpers are called only by each other)", 1)
@@ -1002,4 +1004,47 @@ func decodeErrorTextSanitised(c *Ctx, rid string) {
 	}
 	r.CheckD(n > 0 && bad == "", rid, "the body decoder's error text is sanitised before it becomes a violation description", pos,
 		"BindingMiddleware builds the description of the body violation as "+bad+": the decoder's error quotes the offending input, so a body that is not valid UTF-8 gives a ValidationError whose marshalling fails (proto3 strings must be valid UTF-8) — the client receives `text/plain` 400 without the violation instead of the documented body", map[string]any{"uses": n})
+}
+
+// freshDefaultConfiguration — R10k. Server options (WithErrorHandler, WithMux) are applied to the value that the emitted
+// getDefaultConfiguration returns. If that is the address of a package-level variable, one Register…Server call's error hook
+// becomes the default of every later registration: their errors surface with another service's status and body.
+func freshDefaultConfiguration(c *Ctx, rid string) {
+	r := c.R
+	ep, err := c.ServerRuntime()
+	if err != nil {
+		r.Unres(rid, "emitted server runtime", "", err.Error())
+		return
+	}
+	fd := ep.Funcs["getDefaultConfiguration"]
+	if fd == nil || fd.Body == nil {
+		r.Unres(rid, "getDefaultConfiguration", "", "emitted function not found")
+		return
+	}
+	bad := ""
+	var bpos token.Pos
+	n := 0
+	ast.Inspect(fd.Body, func(nd ast.Node) bool {
+		ret, ok := nd.(*ast.ReturnStmt)
+		if !ok || len(ret.Results) != 1 {
+			return true
+		}
+		n++
+		e := ast.Unparen(ret.Results[0])
+		if u, ok := e.(*ast.UnaryExpr); ok && u.Op == token.AND {
+			e = ast.Unparen(u.X)
+		}
+		if id, ok := e.(*ast.Ident); ok {
+			if v, ok := ep.Info.ObjectOf(id).(*types.Var); ok && v.Parent() == ep.Pkg.Scope() {
+				bad, bpos = ep.Text(ret.Results[0]), ret.Pos()
+			}
+		}
+		return true
+	})
+	pos := ep.GenPos(fd.Pos())
+	if bad != "" {
+		pos = ep.GenPos(bpos)
+	}
+	r.Check(n > 0 && bad == "", rid, "getDefaultConfiguration returns a fresh configuration value", pos,
+		"the emitted getDefaultConfiguration returns "+bad+", a package-level variable: the options of one Register…Server call (its error hook, its mux) are written into it and become the defaults of every later registration without options — their error responses carry another registration's status, headers and body")
 }
